@@ -189,7 +189,7 @@ func c14Specs(thorough bool) []string {
 func TestC14(t *testing.T) {
 	r := NewReporter(t)
 	defer r.Done()
-	r.Rule("spec strings enumerated from the documented grammar and near misses; a spec is distinct by its text; every spec also decoded over a value that already holds one of 4 earlier ranges; probes per accepted spec: borders +-1, network, broadcast, midpoint, far outside, in 16-byte and (for mapped v4) 4-byte form; thorough: every address of every v4 block /20../32 plus a margin")
+	r.Rule("spec strings enumerated from the documented grammar and near misses; a spec is distinct by its text; every spec also decoded over a value that already holds one of 4 earlier ranges; probes per accepted spec: borders +-1, network, broadcast, midpoint, far outside, in 16-byte and (for mapped v4) 4-byte form; thorough: every address of every v4 block /20../32 plus a margin; the grammar space: every string of <= 6 (thorough 8) characters over \"109.:/-f \" and every sequence of <= 4 (thorough 6) tokens over 18 tokens (numbers at the limits, separators, hex groups, whole addresses), accept/reject and border membership against the reference")
 	specs := c14Specs(r.Thorough())
 	one := big.NewInt(1)
 	for i, s := range specs {
@@ -301,6 +301,63 @@ func TestC14(t *testing.T) {
 			}
 		}
 	}
+	// the grammar space itself: every string over a small character alphabet and every sequence over a token alphabet
+	// up to a length - accept/reject must agree with the reference, accepted ones must denote the same set at and
+	// around their borders. Spellings the documentation does not define (a prefix length with leading zeros or a sign, IPv6 spellings with an embedded dotted quad) are
+	// left out.
+	chars := []string{"1", "0", "9", ".", ":", "/", "-", "f", " "}
+	toks := []string{"1", "10", "255", "256", ".", ":", "::", "/", "-", "f", "ffff", "0", "32", "33", "128", "129", "1.2.3.4", "::1"}
+	maxC, maxT := 6, 4
+	if r.Thorough() {
+		maxC, maxT = 8, 6
+	}
+	r.Extra("grammar_sweep", sprintf("all strings of <= %d characters over %q and all sequences of <= %d tokens over %q", maxC, strings.Join(chars, ""), maxT, strings.Join(toks, " ")))
+	undocumented := regexp.MustCompile(`/0[0-9]|/[-+]`)
+	sweepIdx := 0
+	sweep := func(alpha []string, maxLen int, what string) {
+		var rec func(prefix string, depth int)
+		rec = func(prefix string, depth int) {
+			if depth > 0 {
+				sweepIdx++
+				mixed := false // an IPv6 spelling with an embedded dotted quad (IPv4-mapped and the like): not documented
+				for _, part := range strings.FieldsFunc(prefix, func(c rune) bool { return c == '/' || c == '-' }) {
+					if strings.Contains(part, ":") && strings.Contains(part, ".") {
+						mixed = true
+					}
+				}
+				if sweepIdx%r.NShards == r.Shard && !undocumented.MatchString(prefix) && !mixed {
+					ref, refOK := refParse(prefix)
+					got, err := iprange.ParseIPRange(prefix)
+					r.ExtraAdd("grammar_sweep_strings", 1)
+					r.Transition(1)
+					if (err == nil) != refOK {
+						r.Outcome("sweep-accept-mismatch")
+						r.Violation(sprintf("C14:sweep:accept:%v->%v", refOK, err == nil), sprintf("%s %q: reference accept=%v, ParseIPRange err=%v", what, prefix, refOK, err), map[string]any{"spec": prefix})
+					} else if refOK {
+						r.ExtraAdd("grammar_sweep_accepted", 1)
+						r.State(prefix)
+						for _, x := range []*big.Int{ref.lo, ref.hi, new(big.Int).Sub(ref.lo, one), new(big.Int).Add(ref.hi, one)} {
+							for _, ip := range ipForms(x) {
+								if got.Contains(ip) != ref.contains(x) {
+									r.Outcome("sweep-contains-mismatch")
+									r.Violation("C14:sweep:contains", sprintf("%s %q probe %s: reference=%v Contains=%v", what, prefix, ip, ref.contains(x), got.Contains(ip)), map[string]any{"spec": prefix, "probe": ip.String()})
+								}
+							}
+						}
+					}
+				}
+			}
+			if depth == maxLen {
+				return
+			}
+			for _, a := range alpha {
+				rec(prefix+a, depth+1)
+			}
+		}
+		rec("", 0)
+	}
+	sweep(chars, maxC, "string")
+	sweep(toks, maxT, "token sequence")
 	r.Assume("net/netip and math/big are correct; undocumented spellings (+24, 024, IPv4-mapped CIDR bases, zones) are outside the alphabet")
 	r.Note("traces_validated_against_impl=0: every transition is a direct call of the implementation's ParseIPRange/Contains, there is no separate model to bind")
 }
